@@ -165,10 +165,16 @@ class Ctx:
         e["VERIF_SEED"] = str(self.seed)
         e["VERIF_TIER"] = self.tier
         e["VERIF_WORK"] = self.work
+        def build_failed(out):
+            return "[build failed]" in out or "[setup failed]" in out or bool(re.search(r"^# ", out, re.M) and "FAIL" in out and "--- FAIL" not in out)
         p = subprocess.run(cmd, cwd=HARNESS, env=e, stdout=subprocess.PIPE, stderr=subprocess.STDOUT, text=True)
+        if build_failed(p.stdout) and re.search(r"no such file or directory|is not in std|too many open files|cannot allocate|resource temporarily", p.stdout):
+            # the shared build cache / toolchain tree was momentarily unreadable (seen under heavy concurrent load): one retry
+            time.sleep(5)
+            p = subprocess.run(cmd, cwd=HARNESS, env=e, stdout=subprocess.PIPE, stderr=subprocess.STDOUT, text=True)
         log = os.path.join(self.work, "go_%s_%s.log" % (pkg.strip("./").replace("/", "_"), (run or "all").strip("^$").replace("|", "_")[:40]))
         open(log, "w").write(p.stdout)
-        if "[build failed]" in p.stdout or "[setup failed]" in p.stdout or re.search(r"^# ", p.stdout, re.M) and "FAIL" in p.stdout and "--- FAIL" not in p.stdout:
+        if build_failed(p.stdout):
             raise Infra("go build failed for %s:\n%s" % (pkg, p.stdout[-3000:]))
         if p.returncode == 124 or "panic: test timed out after" in p.stdout:
             raise Infra("go test timeout for %s %s" % (pkg, run))
